@@ -156,3 +156,62 @@ def bodies(repo):
   if key not in _cache:
     _cache[key] = [Body(repo, c, f) for c, f in check_bodies(repo)]
   return _cache[key]
+
+
+# ------------------------------------------------------------------ per-curve partitions (shared by C07 / C08 / C17)
+FACTORY_REF = "ref('ec_util.CURVE_FACTORY')"
+
+
+def partition_key(fa, artifacts):
+  """fa = filter(artifacts, [<element>.….curve_type == K]) with K independent of the element  ->  K (Poly); otherwise None."""
+  from pcstatic import sym as _sym
+  if fa is None or fa.kind != "filter" or len(fa.args) != 2 or as_poly(fa.args[0]) != artifacts:
+    return None
+  ca = fa.args[1].as_atom() if isinstance(fa.args[1], Poly) else None
+  conds = _sym.FILTER_CONDS.get(ca.args[0]) if ca is not None and ca.kind == "cond" else None
+  if not conds or len(conds) != 1 or conds[0][0] != "cmp" or conds[0][1] != "Eq":
+    return None
+  for A, K in ((conds[0][2], conds[0][3]), (conds[0][3], conds[0][2])):
+    if not isinstance(A, Poly) or not isinstance(K, Poly):
+      continue
+    a = A.as_atom()
+    if a is None or a.kind != "attr" or a.args[1] != "curve_type":
+      continue
+    root = a
+    while root is not None and root.kind == "attr":
+      root = as_poly(root.args[0]).as_atom()
+    if root is None or root.kind != "idx" or as_poly(root.args[0]) != artifacts:
+      continue
+    own = {x for x in as_poly(root.args[1]).all_atoms() if x.kind == "bv"}
+    if own & K.all_atoms():
+      continue
+    return K
+  return None
+
+
+def partition_key_source(K, artifacts):
+  """'factory' when K runs over the keys of CURVE_FACTORY, 'batch' when it runs over the curve types that occur in the batch, else None:
+  either way every supported curve that has artifacts in the batch gets its partition."""
+  a = K.as_atom()
+  if a is not None and a.kind == "key" and repr(a.args[0]) == FACTORY_REF:
+    return "factory"
+  if a is not None and a.kind == "idx":
+    src = as_poly(a.args[0])
+    ats = src.all_atoms()
+    if any(x.kind == "attr" and x.args[1] == "curve_type" for x in ats) and artifacts.as_atom() in ats and not any(x.kind == "filter" for x in ats):
+      return "batch"
+  return None
+
+
+def factory_lookups(values):
+  """keys X of every CURVE_FACTORY[X] / CURVE_FACTORY.get(X, ..) occurring in the given values."""
+  out = []
+  for v in values:
+    if not isinstance(v, Poly):
+      continue
+    for a in v.all_atoms():
+      if a.kind == "idx" and repr(a.args[0]) == FACTORY_REF:
+        out.append(as_poly(a.args[1]))
+      if a.kind == "mcall" and repr(a.args[0]) == FACTORY_REF and repr(a.args[1]) == "lit('get')" and len(a.args) > 2:
+        out.append(as_poly(a.args[2]))
+  return out
